@@ -324,6 +324,8 @@ def scenarios(ctx):
             ids = _ids(rng, max(nsets, 1), reuse=ids)
             chroms.append(random_chrom(rng, nm, ploidy, nsets, rng.randint(8, 25), ids))
         scs.append(make_file(rng, k, "rand", chroms, rng.choice(["PS", "HP"]), ploidy, decoy=rng.random() < 0.3))
+        if ploidy == 2 and rng.random() < 0.3:
+            scs[-1]["shadow"] = True
     # ---- block families replayed into the real PhasingStats ----
     batch = []
     for n, lab in enumerate(fams):
@@ -379,6 +381,10 @@ def write_world(sc, d):
             if sc["decoy"]:
                 dec = _call(enc, s["dgt"], s["dps"], s.get("dhp"))
                 calls = [main, dec] if sc["which"] == 0 else [dec, main]
+            if sc.get("shadow") and (s["pos"] * 7 + c["name"]) % 3 == 0:
+                # an (ignored) multi-ALT record listed directly in front of this record at the SAME position
+                recs.append({"chrom": _cname(c["name"]), "pos": s["pos"], "ref": s["ref"][0], "alt": s["ref"][0] + "TT," + s["ref"][0] + "T",
+                             "fmt": ["GT", enc], "calls": [["1/2", "."] for _ in calls]})
             recs.append({"chrom": _cname(c["name"]), "pos": s["pos"], "ref": s["ref"], "alt": s["alt"], "fmt": ["GT", enc],
                          "calls": calls})
     contigs = [(_cname(i), 5000) for i in range(1, sc["ncontigs"] + 1)]
@@ -396,6 +402,8 @@ def decode_text(path, sample_idx, enc):
     _, _, recs = world.read_vcf_text(path)
     chroms = []
     for r in recs:
+        if "," in r["alt"]:
+            continue            # multi-ALT records are not variants for stats (the reader ignores them)
         nm = "?ABCDEFG".index(r["chrom"][3:])
         if not chroms or chroms[-1]["name"] != nm:
             chroms.append({"name": nm, "sites": []})
